@@ -96,7 +96,7 @@ CHURN = {
     'nested_arrays': ('let a: array<int> = [i]\n        let mut aa: array<array<int>> = [a, a]\n        set aa (array_push aa a)\n        (array_set aa 0 [i, i])', True),
     'global_swap': ('let old: array<int> = (swapg [i, 1])\n        let l: int = (array_length old)', True),
     'array_remove': ('let mut a: array<string> = [(+ "r" (int_to_string i)), "keep"]\n        set a (array_remove_at a 0)', True),
-    'array_set_oob': ('let a: array<string> = ["z"]\n        (array_set a 5 (+ "oob" (int_to_string i)))', True),
+    'array_set_inrange': ('let a: array<string> = ["z", (+ "y" (int_to_string i))]\n        (array_set a 1 (+ "n" (int_to_string i)))\n        (array_set a 0 "t1")', True),
     'fn_value_call': ('let f: fn(int) -> int = dbl\n        let r: int = (f i)', True),
     'extern_string_arg': ('let s: string = (+ "arg" (int_to_string i))\n        let n: int = (strlen s)', True),
 }
